@@ -297,6 +297,9 @@ DIRECTED = [
     ("all(y > 1 for y in xs if y != 5 if 10 // (y - 5) < 100)", ["xs"], {"xs": [7, 5, 0]}),
     ("all(len(v) < 3 for v in [xs, ys])", ["xs", "ys"], {"xs": list(range(40)), "ys": [1]}),
     ("all(v != s for v in [CS, s])", ["s"], {"s": "abcxyz" * 12}),
+    ("f'{s!a}' == 'zz'", ["s"], {"s": "Zo\u00eb"}),
+    ("f'{s!a:>9}|{s!r:>9}|{s!s:>9}' == 'zz'", ["s"], {"s": "\u03bbx"}),
+    ("f'{n!a}{s}' == s", ["n", "s"], {"s": "\u00e9"}),
     ("all(y < z for i, (y, z) in enumerate(zip(xs, ys)))", ["xs", "ys"], {"xs": [1, 9, 2], "ys": [4, 5, 6]}),
     ("all(abs(n) < 4 for i, (n, z) in enumerate(zip(xs, ys)))", ["xs", "ys"], {"xs": [1, 9, 2], "ys": [4, 5, 6], "n": -7}),
     ("all(len(tl) < 2 for h, *tl in [xs + [0], ys + [1, 2]])", ["xs", "ys"], {"xs": [1], "ys": [4, 5]}),
